@@ -32,7 +32,9 @@ import (
 //   main output's batcher, C = events committed by the (synchronous) dead-queue output.
 
 func init() {
-	execs["c09.es"] = execC09ES
+	execs["c09.es"] = func(t *hx.Toks) string {
+		return runWatched(8*time.Second, 8*time.Second, func(*watched) string { return execC09ES(t) })
+	}
 }
 
 type esDQ struct {
@@ -185,7 +187,9 @@ func execC09ES(t *hx.Toks) string {
 //         `c <n> ids…` events committed through the main output, `C <n> ids…` committed by the dead queue.
 
 func init() {
-	execs["c09.esdq"] = execC09ESDQ
+	execs["c09.esdq"] = func(t *hx.Toks) string {
+		return runWatched(8*time.Second, 8*time.Second, func(*watched) string { return execC09ESDQ(t) })
+	}
 }
 
 type esSlowDQ struct {
